@@ -22,6 +22,9 @@ BINDINGS = {
     "two-bindings-one-struct": [("impl", "can", "A", None, (("id", 1), ("bus", "bus1")), ()), ("impl", "can", "A", "A2", (("id", 2), ("bus", "bus1")), ())],
     "outer-bound-inner-not": [("impl", "uart", "B", None, (("baud", 1),), ())],
     "big-endian": [("impl", "can", "B", None, (("id", 3), ("endianess", "big")), ())],
+    # CAN bindings that name no frame id, or name it with something that is not a number: accepted, so every header compiles
+    "can-without-id": [("impl", "can", "A", None, (("bus", "bus1"),), ()), ("impl", "can", "B", None, (("id", 0), ("bus", "bus1")), ())],
+    "can-id-not-a-number": [("impl", "can", "A", None, (("id", ("id", "abc")), ("bus", "bus1")), ())],
     # a second binding of the DEFAULT protocol under a name of its own, declared after the struct (whose own default
     # binding therefore comes first): "a struct bound several times is only defined once", by its first binding
     "second-default-binding": [("impl", "default", "B", "BNet", (("endianess", "big"),), ()), ("impl", "default", "A", "ANet", (("note", "x"),), ())],
@@ -67,6 +70,7 @@ NAMING = [
     ("naming:struct-named-like-its-own-accessor", [_st("GetStatus", ("status", U(8)))], {"GetStatus": {"status": 7}}),
     ("naming:enumerator-named-like-its-enum", [("enum", "Mode", (("Off", 0), ("Mode", 1))), _st("Cfg", ("m", ("ref", "Mode")))], {"Cfg": {"m": 1}}),
     ("naming:getter-equals-another-fields-alias", [_st("Command", ("get_config", U(1)), ("config_type", U(7)))], {"Command": {"get_config": 1, "config_type": 66}}),
+    ("naming:view-accessor-equals-another-fields-alias", [_st("Camera", ("view", U(8)), ("type", U(16)))], {"Camera": {"view": 7, "type": 515}}),
     ("naming:fields-equal-in-pascal-case", [_st("Wheel", ("speed", U(16)), ("Speed", I(16)))], {"Wheel": {"speed": 1000, "Speed": -2}}),
 ]
 
